@@ -1650,6 +1650,14 @@ func (fx *FnExec) execSelect(st *State, in *ssa.Select) {
 		v.Tup = append(v.Tup, e.freshVal(st, "recv", tup.At(i).Type()))
 	}
 	fx.setReg(st, in, v)
+	// selected(): the channel of the case the most recent select took (0 for the default case)
+	selCh := "0"
+	for i := len(chans) - 1; i >= 0; i-- {
+		selCh = ite(fmt.Sprintf("(= %s %d)", idx, i), chans[i], selCh)
+	}
+	k := "G|$selected|0"
+	e.regHeap(k, SInt, "selected", "G", nil)
+	e.heapSet(st, k, selCh)
 }
 
 func partName(nt namedTerm, i int) string {
